@@ -416,7 +416,31 @@ pub fn gen_small(prop: &str, seed: u64, idx: u64) -> (StreamScenario, GenInfo) {
     let pal = palette(r, case);
     // C18 re-executes every fault position: no pattern sets of 13-300 there, but
     // long patterns (around 100 / 256 bytes) are allowed
-    let pats = gen_patterns_ext(r, &pal, prop != "C18", true);
+    // one scenario in 30: valid UTF-8 text over a few multi-byte characters, patterns that are
+    // arbitrary byte fragments of such text (they may begin or end inside a code point)
+    let utf8: Option<Vec<&'static str>> = if !case && r.chance(1, 30) {
+        const CH: [&str; 7] = ["\u{e9}", "\u{fc}", "a", "\u{6f22}", "\u{1f600}", "\u{df}", "b"];
+        let k = r.range(2, 4);
+        let start = r.below(CH.len());
+        Some((0..k).map(|i| CH[(start + i) % CH.len()]).collect())
+    } else {
+        None
+    };
+    let pats = match &utf8 {
+        Some(chars) => {
+            let n = r.range(1, 5);
+            (0..n)
+                .map(|_| {
+                    let nc = r.range(1, 4);
+                    let t: Vec<u8> = (0..nc).flat_map(|_| r.pick(chars).as_bytes().to_vec()).collect();
+                    let a = r.below(t.len());
+                    let b = r.range(a + 1, t.len());
+                    t[a..b].to_vec()
+                })
+                .collect()
+        }
+        None => gen_patterns_ext(r, &pal, prop != "C18", true),
+    };
     let maxlen = pats.iter().map(|p| p.len()).max().unwrap();
     let spare = spare_choices(r, maxlen);
     let cap = maxlen + spare.unwrap_or(3).max(1);
@@ -439,7 +463,16 @@ pub fn gen_small(prop: &str, seed: u64, idx: u64) -> (StreamScenario, GenInfo) {
     }
     .min(limit);
     let mut planted = Vec::new();
-    let stream = gen_stream(r, &pal, &pats, target, case, &mut planted);
+    let stream = match &utf8 {
+        Some(chars) => {
+            let mut s = Vec::new();
+            while s.len() < target {
+                s.extend_from_slice(r.pick(chars).as_bytes());
+            }
+            s
+        }
+        None => gen_stream(r, &pal, &pats, target, case, &mut planted),
+    };
     let opts = gen_opts(r, case);
     let (mut reads, default_read, _mode) = gen_reads(r, stream.len(), maxlen, &planted);
     if r.chance(2, 25) && !stream.is_empty() {
@@ -546,7 +579,12 @@ pub fn gen_small(prop: &str, seed: u64, idx: u64) -> (StreamScenario, GenInfo) {
         default_write,
         faults,
         infallible_ctor,
+        drive: 0,
     };
+    let mut sc = sc;
+    if sc.op == StreamOp::Find && r.chance(1, 8) {
+        sc.drive = 1 + r.below(3) as u8;
+    }
     (sc, GenInfo { planted, class: "small" })
 }
 
@@ -709,6 +747,7 @@ pub fn gen_big(prop: &str, seed: u64, idx: u64) -> (StreamScenario, GenInfo) {
         default_write: *r.pick(&[WriteStep::All, WriteStep::Half, WriteStep::Accept(4096)]),
         faults: Vec::new(),
         infallible_ctor: false,
+        drive: 0,
     };
     (sc, GenInfo { planted, class: "big" })
 }
